@@ -2,14 +2,16 @@
    CONTAINS EXACTLY the abstract grammar [ag] ([ast_of_faithful]): productions in
    source order, one rule per distinct name in order of first block owning exactly
    the productions of its blocks, the start rule, precedence levels, %epp pairs,
-   %avoid_insert, %expect / %expect-rr, the %token-declared names; nothing else.
+   %avoid_insert, %expect / %expect-rr, the %token-declared names, %implicit_tokens,
+   %parse-param, %parse-generics, %expect-unused, the programs section and the action
+   type of every rule (its first block's own, else the %actiontype); nothing else.
 
    No parsing here: pure facts about [decls_eff] / [rules_eff].  Every conjunct is a
    statement about one projection of the AST; for each projection there is a lemma
    generalised over the starting AST and the offsets (induction over the
    declaration / rule / production list). *)
 From Coq Require Import List Arith NArith ZArith Bool Lia.
-From GV Require Import Common.Outcome C10.YpModel C10.YpSpec C10.YpProofs C10.YpTotal C10.YpPrint C10.YpRoundSpec C10.YpRoundBase C10.YpRoundInv C10.YpRoundDeclLines C10.YpRoundDeclInv.
+From GV Require Import Common.Outcome C10.YpModel C10.YpSpec C10.YpProofs C10.YpTotal C10.YpPrint C10.YpRoundSpec C10.YpRoundBase C10.YpRoundInv C10.YpRoundDeclLines C10.YpRoundDeclInv C10.YpRoundValid.
 Import ListNotations.
 Local Open Scope nat_scope.
 
@@ -178,22 +180,27 @@ Variable P : gast -> Prop.
 Hypothesis P_declared : forall a o, P a -> P (ins_declared a o).
 Hypothesis P_prec : forall lvl k a o, P a -> P (ins_prec lvl k a o).
 Hypothesis P_avoid : forall a o, P a -> P (ins_avoid a o).
+Hypothesis P_implicit : forall a o, P a -> P (ins_implicit a o).
+Hypothesis P_eu : forall a s, P a -> P (ins_eu a s).
 Hypothesis P_start : forall a v, P a -> P (upd_start a v).
 Hypothesis P_epp : forall a v, P a -> P (upd_epp a v).
 Hypothesis P_avoid0 : forall a v, P a -> P (upd_avoid a v).
 Hypothesis P_expect : forall a v, P a -> P (upd_expect a v).
 Hypothesis P_expectrr : forall a v, P a -> P (upd_expectrr a v).
+Hypothesis P_implicit0 : forall a v, P a -> P (upd_implicit a v).
+Hypothesis P_pp : forall a v, P a -> P (upd_parse_param a v).
+Hypothesis P_pg : forall a v, P a -> P (upd_parse_generics a v).
 
-Lemma fold_pres : forall (f : gast -> str * span -> gast), (forall a o, P a -> P (f a o)) ->
+Lemma fold_pres : forall (O : Type) (f : gast -> O -> gast), (forall a o, P a -> P (f a o)) ->
   forall occs a, P a -> P (fold_left f occs a).
 Proof.
-  intros f Hf occs. induction occs as [|o occs IH]; intros a H; cbn [fold_left]; [exact H|].
+  intros O f Hf occs. induction occs as [|o occs IH]; intros a H; cbn [fold_left]; [exact H|].
   apply IH. apply Hf. exact H.
 Qed.
 
 Lemma decl_eff_pres : forall dl off lvl x a, P a -> P (decl_eff dl off lvl x a).
 Proof.
-  intros dl off lvl x a H. destruct x as [n|ts|k ts|t v|ts|v|v]; cbn [decl_eff].
+  intros dl off lvl x a H. destruct x as [n|ts|k ts|t v|ts|v|v|t|nm t|t|ss|ts]; cbn [decl_eff].
   - apply P_start. exact H.
   - apply fold_pres; [exact P_declared | exact H].
   - apply fold_pres; [apply P_prec | exact H].
@@ -201,6 +208,11 @@ Proof.
   - apply fold_pres; [exact P_avoid|]. destruct (a_avoid_insert a); [exact H | apply P_avoid0; exact H].
   - apply P_expect. exact H.
   - apply P_expectrr. exact H.
+  - exact H.
+  - apply P_pp. exact H.
+  - apply P_pg. exact H.
+  - apply fold_pres; [exact P_eu | exact H].
+  - apply fold_pres; [exact P_implicit|]. destruct (a_implicit_tokens a); [exact H | apply P_implicit0; exact H].
 Qed.
 
 Lemma decls_eff_pres : forall l ds d off lvl a, P a -> P (decls_eff l d off lvl ds a).
@@ -214,9 +226,7 @@ End DeclsPres.
 (*  what each section leaves alone                                            *)
 (* ======================================================================== *)
 (* the part of the AST the declarations never touch *)
-Definition rpart (a : gast) :=
-  (a_rules a, a_prods a, a_implicit_tokens a, a_parse_param a, a_parse_generics a,
-   a_programs a, a_expect_unused a).
+Definition rpart (a : gast) := (a_rules a, a_prods a, a_programs a).
 (* the part of the AST the rules never touch *)
 Definition dpart (a : gast) :=
   (a_precs a, a_epp a, a_avoid_insert a, a_expect a, a_expectrr a,
@@ -238,6 +248,7 @@ Proof.
   apply (decls_eff_pres (fun a' => rpart a' = rpart a)); try (intros; assumption); try reflexivity.
   - intros a' o H. rewrite ins_declared_rpart. exact H.
   - intros a' o H. unfold ins_avoid. rewrite <- H, <- (tokens_insert_rpart a' (fst o) (snd o)). reflexivity.
+  - intros a' o H. unfold ins_implicit. rewrite <- H, <- (tokens_insert_rpart a' (fst o) (snd o)). reflexivity.
 Qed.
 
 Lemma add_prod_t_dpart : forall a rn syms prec act sp, dpart (add_prod_t a rn syms prec act sp) = dpart a.
@@ -281,6 +292,7 @@ Proof.
   intros l ds d off lvl a. apply (decls_eff_pres span_len); try (intros; assumption).
   - exact span_len_ins_declared.
   - intros a' o H. unfold ins_avoid. apply (span_len_tokens_insert a' (fst o) (snd o)) in H. exact H.
+  - intros a' o H. unfold ins_implicit. apply (span_len_tokens_insert a' (fst o) (snd o)) in H. exact H.
 Qed.
 
 Lemma span_len_rules : forall fa l at_ rs r off a, span_len a -> span_len (rules_eff fa l r off at_ rs a).
@@ -315,6 +327,10 @@ Definition sel_expectrr (d : adecl) : list N := match d with DExpectRR v => [v] 
 Definition sel_prec (d : adecl) : list (assoc * list str) := match d with DPrec k ts => [(k, ts)] | _ => [] end.
 Definition sel_epp (d : adecl) : list (str * str) := match d with DEpp t v => [(t, v)] | _ => [] end.
 Definition is_davoid (d : adecl) : bool := match d with DAvoid _ => true | _ => false end.
+Definition is_dimplicit (d : adecl) : bool := match d with DImplicit _ => true | _ => false end.
+Definition sel_at (d : adecl) : list str := match d with DActiontype t => [t] | _ => [] end.
+Definition sel_pp (d : adecl) : list (str * str) := match d with DParseParam n t => [(n, t)] | _ => [] end.
+Definition sel_pg (d : adecl) : list str := match d with DParseGenerics t => [t] | _ => [] end.
 
 Lemma fold_prec_precs : forall lvl k occs a,
   a_precs (fold_left (ins_prec lvl k) occs a)
@@ -338,38 +354,135 @@ Lemma decl_eff_view : forall dl off lvl x a,
     = match x with
       | DAvoid ts => Some (ak a ++ ts)
       | _ => option_map (map fst) (a_avoid_insert a)
+      end /\
+  option_map (map fst) (a_implicit_tokens (decl_eff dl off lvl x a))
+    = match x with
+      | DImplicit ts => Some (ik a ++ ts)
+      | _ => option_map (map fst) (a_implicit_tokens a)
       end.
 Proof.
-  intros dl off lvl x a. destruct x as [n|ts|k ts|t v|ts|v|v];
+  intros dl off lvl x a. destruct x as [n|ts|k ts|t v|ts|v|v|t|nm t|t|ss|ts];
     cbn [decl_eff sel_start sel_expect sel_expectrr sel_prec sel_epp hd_error prec_levels].
   - (* %start *) cbn. rewrite !app_nil_r. repeat split; reflexivity.
   - (* %token *)
     destruct (fold_declared_frame
                 (tok_occs (dg dl) (dq dl) 0 (off + byte_len (dg dl 0) + byte_len kw_token) ts) a)
       as [H1 [H2 [H3 [H4 [H5 H6]]]]].
-    rewrite H1, H2, H3, H4, H5, H6, !app_nil_r. repeat split; reflexivity.
+    rewrite fold_declared_implicit, H1, H2, H3, H4, H5, H6, !app_nil_r. repeat split; reflexivity.
   - (* %left ... *)
     set (occs := tok_occs (dg dl) (dq dl) 0 (off + byte_len (dg dl 0) + byte_len (kw_assoc k)) ts).
     destruct (fold_prec_frame lvl k occs a) as [H1 [H2 [H3 [_ [H5 [H6 _]]]]]].
-    rewrite H1, H2, H3, H5, H6, fold_prec_precs, !app_nil_r. repeat split; try reflexivity.
+    rewrite fold_prec_implicit, H1, H2, H3, H5, H6, fold_prec_precs, !app_nil_r. repeat split; try reflexivity.
     assert (Hocc : map fst occs = ts) by apply map_fst_tok_occs.
     rewrite map_app. f_equal. rewrite <- Hocc, !map_map. reflexivity.
-  - (* %epp *) cbn [a_start a_expect a_expectrr a_precs a_epp a_avoid_insert upd_epp].
+  - (* %epp *) cbn [a_start a_expect a_expectrr a_precs a_epp a_avoid_insert a_implicit_tokens upd_epp].
     rewrite map_app, !app_nil_r. repeat split; reflexivity.
   - (* %avoid_insert *)
     set (occs := tok_occs (dg dl) (dq dl) 0 (off + byte_len (dg dl 0) + byte_len kw_avoid_insert) ts).
     assert (Hocc : map fst occs = ts) by apply map_fst_tok_occs.
     destruct (a_avoid_insert a) as [m|] eqn:Ea.
     + destruct (fold_avoid_frame occs a m Ea) as [H1 [H2 [H3 [H4 [H5 H6]]]]].
-      unfold ak. rewrite H1, H2, H3, H4, H5, H6, Ea, !app_nil_r. cbn [option_map].
+      unfold ak. rewrite fold_avoid_implicit, H1, H2, H3, H4, H5, H6, Ea, !app_nil_r. cbn [option_map].
       rewrite map_app, Hocc. repeat split; reflexivity.
     + assert (E0 : a_avoid_insert (upd_avoid a (Some [])) = Some []) by reflexivity.
       destruct (fold_avoid_frame occs (upd_avoid a (Some [])) [] E0) as [H1 [H2 [H3 [H4 [H5 H6]]]]].
-      unfold ak. rewrite H1, H2, H3, H4, H5, H6, Ea, !app_nil_r.
-      cbn [a_start a_expect a_expectrr a_precs a_epp upd_avoid app option_map].
+      unfold ak. rewrite fold_avoid_implicit, H1, H2, H3, H4, H5, H6, Ea, !app_nil_r.
+      cbn [a_start a_expect a_expectrr a_precs a_epp a_implicit_tokens upd_avoid app option_map].
       rewrite Hocc. repeat split; reflexivity.
   - (* %expect *) cbn. rewrite !app_nil_r. repeat split; reflexivity.
   - (* %expect-rr *) cbn. rewrite !app_nil_r. repeat split; reflexivity.
+  - (* %actiontype *) rewrite !app_nil_r. repeat split; reflexivity.
+  - (* %parse-param *) cbn. rewrite !app_nil_r. repeat split; reflexivity.
+  - (* %parse-generics *) cbn. rewrite !app_nil_r. repeat split; reflexivity.
+  - (* %expect-unused *)
+    set (occs := eu_occs (dg dl) (dq dl) 0 (off + byte_len (dg dl 0) + byte_len kw_expect_unused) ss).
+    pose proof (fold_eu_dsens occs a) as HH.
+    unfold dsens in HH. injection HH as H1 H2 H3 H4 H5 H6 H7.
+    rewrite H1, H2, H3, H4, H5, H6, H7, !app_nil_r. repeat split; reflexivity.
+  - (* %implicit_tokens *)
+    set (occs := tok_occs (dg dl) (dq dl) 0 (off + byte_len (dg dl 0) + byte_len kw_implicit_tokens) ts).
+    assert (Hocc : map fst occs = ts) by apply map_fst_tok_occs.
+    destruct (a_implicit_tokens a) as [m|] eqn:Ea.
+    + destruct (fold_implicit_frame occs a m Ea) as [H1 [H2 [H3 [H4 [H5 [H6 H7]]]]]].
+      unfold ik. rewrite H1, H2, H3, H4, H5, H6, H7, Ea, !app_nil_r. cbn [option_map].
+      rewrite map_app, Hocc. repeat split; reflexivity.
+    + assert (E0 : a_implicit_tokens (upd_implicit a (Some [])) = Some []) by reflexivity.
+      destruct (fold_implicit_frame occs (upd_implicit a (Some [])) [] E0) as [H1 [H2 [H3 [H4 [H5 [H6 H7]]]]]].
+      unfold ik. rewrite H1, H2, H3, H4, H5, H6, H7, Ea, !app_nil_r.
+      cbn [a_start a_expect a_expectrr a_precs a_epp a_avoid_insert upd_implicit app option_map].
+      rewrite Hocc. repeat split; reflexivity.
+Qed.
+
+(* ---- %parse-param / %parse-generics ---------------------------------------------- *)
+Definition ppart (a : gast) := (a_parse_param a, a_parse_generics a).
+
+Lemma tokens_insert_ppart : forall a n sp, ppart (tokens_insert a n sp) = ppart a.
+Proof. intros a n sp. destruct (tokens_insert_cases a n sp) as [[_ E]|[_ E]]; rewrite E; reflexivity. Qed.
+
+Lemma ins_declared_ppart : forall a o, ppart (ins_declared a o) = ppart a.
+Proof.
+  intros a o. unfold ins_declared, insert_full. destruct (get_index_of (a_tokens a) (fst o)); reflexivity.
+Qed.
+
+Lemma ins_avoid_ppart : forall a o, ppart (ins_avoid a o) = ppart a.
+Proof. intros a o. unfold ins_avoid. rewrite <- (tokens_insert_ppart a (fst o) (snd o)). reflexivity. Qed.
+
+Lemma ins_implicit_ppart : forall a o, ppart (ins_implicit a o) = ppart a.
+Proof. intros a o. unfold ins_implicit. rewrite <- (tokens_insert_ppart a (fst o) (snd o)). reflexivity. Qed.
+
+Lemma fold_ppart : forall (O : Type) (f : gast -> O -> gast), (forall a o, ppart (f a o) = ppart a) ->
+  forall occs a, ppart (fold_left f occs a) = ppart a.
+Proof.
+  intros O f Hf occs. induction occs as [|o occs IH]; intros a; cbn [fold_left]; [reflexivity|].
+  rewrite IH. apply Hf.
+Qed.
+
+Lemma decl_eff_ppart : forall dl off lvl x a,
+  ppart (decl_eff dl off lvl x a)
+  = (match hd_error (sel_pp x) with Some v => Some v | None => a_parse_param a end,
+     match hd_error (sel_pg x) with Some v => Some v | None => a_parse_generics a end).
+Proof.
+  intros dl off lvl x a. destruct x as [n|ts|k ts|t v|ts|v|v|t|nm t|t|ss|ts]; cbn [decl_eff sel_pp sel_pg hd_error].
+  - reflexivity.
+  - rewrite (fold_ppart _ ins_declared ins_declared_ppart). reflexivity.
+  - rewrite (fold_ppart _ (ins_prec lvl k)); [reflexivity | intros; reflexivity].
+  - reflexivity.
+  - rewrite (fold_ppart _ ins_avoid ins_avoid_ppart). destruct (a_avoid_insert a); reflexivity.
+  - reflexivity.
+  - reflexivity.
+  - reflexivity.
+  - reflexivity.
+  - reflexivity.
+  - rewrite (fold_ppart _ ins_eu); [reflexivity | intros; reflexivity].
+  - rewrite (fold_ppart _ ins_implicit ins_implicit_ppart). destruct (a_implicit_tokens a); reflexivity.
+Qed.
+
+Lemma decl_eff_pp : forall dl off lvl x a,
+  a_parse_param (decl_eff dl off lvl x a)
+  = match hd_error (sel_pp x) with Some v => Some v | None => a_parse_param a end.
+Proof.
+  intros dl off lvl x a. pose proof (decl_eff_ppart dl off lvl x a) as HH. unfold ppart in HH.
+  injection HH as H1 H2. exact H1.
+Qed.
+
+Lemma decl_eff_pg : forall dl off lvl x a,
+  a_parse_generics (decl_eff dl off lvl x a)
+  = match hd_error (sel_pg x) with Some v => Some v | None => a_parse_generics a end.
+Proof.
+  intros dl off lvl x a. pose proof (decl_eff_ppart dl off lvl x a) as HH. unfold ppart in HH.
+  injection HH as H1 H2. exact H2.
+Qed.
+
+(* ---- %actiontype: the type in force after the declarations ------------------------- *)
+Lemma decls_gat_once : forall l ds d off g, List.length (flat_map sel_at ds) <= 1 ->
+  actiont_of (decls_gat l d off ds g)
+  = match hd_error (flat_map sel_at ds) with Some t => Some t | None => actiont_of g end.
+Proof.
+  intros l ds. induction ds as [|x ds IH]; intros d off g H; cbn [decls_gat flat_map]; [reflexivity|].
+  cbn [flat_map] in H. rewrite app_length in H. rewrite IH by lia.
+  destruct x as [n|ts|k ts|t v|ts|v|v|t|nm t|t|ss|ts]; cbn [sel_at decl_gat app hd_error List.length] in *;
+    try reflexivity.
+  destruct (flat_map sel_at ds) as [|u s]; [reflexivity | cbn [List.length] in H; lia].
 Qed.
 
 (* a value set by at most one declaration *)
@@ -429,9 +542,25 @@ Lemma decls_eff_avoid : forall l ds d off lvl a,
 Proof.
   intros l ds. induction ds as [|x ds IH]; intros d off lvl a; cbn [decls_eff flat_map existsb].
   - destruct (option_map (map fst) (a_avoid_insert a)); [rewrite app_nil_r|]; reflexivity.
-  - rewrite IH. destruct (decl_eff_view (dlay_of l d) off lvl x a) as [_ [_ [_ [_ [_ H]]]]]. rewrite H.
-    destruct x as [n|ts|k ts|t v|ts|v|v]; cbn [avoid_toks is_davoid app orb]; try reflexivity.
+  - rewrite IH. destruct (decl_eff_view (dlay_of l d) off lvl x a) as [_ [_ [_ [_ [_ [H _]]]]]]. rewrite H.
+    destruct x as [n|ts|k ts|t v|ts|v|v|t|nm t|t|ss|ts]; cbn [avoid_toks is_davoid app orb]; try reflexivity.
     unfold ak. destruct (a_avoid_insert a) as [m|]; cbn [option_map app].
+    + rewrite <- app_assoc. reflexivity.
+    + reflexivity.
+Qed.
+
+Lemma decls_eff_implicit : forall l ds d off lvl a,
+  option_map (map fst) (a_implicit_tokens (decls_eff l d off lvl ds a))
+  = match option_map (map fst) (a_implicit_tokens a) with
+    | Some m => Some (m ++ flat_map implicit_toks ds)
+    | None => if existsb is_dimplicit ds then Some (flat_map implicit_toks ds) else None
+    end.
+Proof.
+  intros l ds. induction ds as [|x ds IH]; intros d off lvl a; cbn [decls_eff flat_map existsb].
+  - destruct (option_map (map fst) (a_implicit_tokens a)); [rewrite app_nil_r|]; reflexivity.
+  - rewrite IH. destruct (decl_eff_view (dlay_of l d) off lvl x a) as [_ [_ [_ [_ [_ [_ H]]]]]]. rewrite H.
+    destruct x as [n|ts|k ts|t v|ts|v|v|t|nm t|t|ss|ts]; cbn [implicit_toks is_dimplicit app orb]; try reflexivity.
+    unfold ik. destruct (a_implicit_tokens a) as [m|]; cbn [option_map app].
     + rewrite <- app_assoc. reflexivity.
     + reflexivity.
 Qed.
@@ -554,23 +683,70 @@ Proof.
   rewrite IH. destruct s; reflexivity.
 Qed.
 
-(* the invariant of the rules section: [owners] / [pl] = owner / content of every production so far *)
-Definition RI (at_ : option str) (a : gast) (owners : list str)
+(* the action type of the rule called n after the blocks [done]: the one of its FIRST block
+   (the block's own, else the %actiontype [at_]) *)
+Definition tyf (at_ : option str) (done : list arule) (n : str) : option str :=
+  match find (fun x => str_eqb (ar_name x) n) done with
+  | Some x => rule_at_ at_ x
+  | None => None
+  end.
+
+Lemma tyf_snoc_in : forall at_ done x n, In n (map ar_name done) -> tyf at_ (done ++ [x]) n = tyf at_ done n.
+Proof.
+  intros at_ done x n. unfold tyf. induction done as [|y done IH]; intros H; [destruct H|].
+  cbn [app find]. destruct (str_eqb (ar_name y) n) eqn:E; [reflexivity|].
+  apply IH. destruct H as [H|H]; [|exact H].
+  cbn [map] in H. rewrite H, str_eqb_refl in E. discriminate E.
+Qed.
+
+Lemma tyf_snoc_new : forall at_ done x,
+  ~ In (ar_name x) (map ar_name done) -> tyf at_ (done ++ [x]) (ar_name x) = rule_at_ at_ x.
+Proof.
+  intros at_ done x. unfold tyf. induction done as [|y done IH]; intros H.
+  - cbn [app find]. rewrite str_eqb_refl. reflexivity.
+  - cbn [app find]. destruct (str_eqb (ar_name y) (ar_name x)) eqn:E.
+    + exfalso. apply H. left. apply str_eqb_eq. exact E.
+    + apply IH. intros Hi. apply H. right. exact Hi.
+Qed.
+
+Lemma in_addn : forall T y n, In n (addn T y) <-> In n T \/ n = y.
+Proof.
+  intros T y n. unfold addn. destruct (mem_str T y) eqn:E.
+  - split; [intros H; left; exact H|]. intros [H| ->]; [exact H | apply ff_mem_str_in; exact E].
+  - split.
+    + intros H. apply in_app_or in H. destruct H as [H|[H|[]]]; [left; exact H | right; symmetry; exact H].
+    + intros [H| ->]; apply in_or_app; [left; exact H | right; left; reflexivity].
+Qed.
+
+(* the invariant of the rules section: [owners] / [pl] = owner / content of every production so far;
+   [ty] = the action type of every rule so far, by name *)
+Definition RI (ty : str -> option str) (a : gast) (owners : list str)
               (pl : list (list asym * option str * option str)) : Prop :=
   map pview (a_prods a) = pl /\
   List.length (a_prods a) = List.length owners /\
   NoDup (map r_name (a_rules a)) /\
   (forall o, In o owners -> In o (map r_name (a_rules a))) /\
-  (forall r, In r (a_rules a) -> r_pidxs r = owned owners (r_name r) /\ r_actiont r = at_).
+  (forall r, In r (a_rules a) -> r_pidxs r = owned owners (r_name r) /\ r_actiont r = ty (r_name r)).
 
-Lemma RI_same : forall at_ a a' owners pl,
-  a_rules a' = a_rules a -> a_prods a' = a_prods a -> RI at_ a owners pl -> RI at_ a' owners pl.
-Proof. intros at_ a a' owners pl Hr Hp H. unfold RI in *. rewrite Hr, Hp. exact H. Qed.
+Lemma RI_same : forall ty a a' owners pl,
+  a_rules a' = a_rules a -> a_prods a' = a_prods a -> RI ty a owners pl -> RI ty a' owners pl.
+Proof. intros ty a a' owners pl Hr Hp H. unfold RI in *. rewrite Hr, Hp. exact H. Qed.
 
-Lemma RI_head : forall at_ off n a owners pl,
-  RI at_ a owners pl -> RI at_ (rule_head_eff off at_ n a) owners pl.
+(* only the types of the rules there are matter *)
+Lemma RI_ty_ext : forall ty ty' a owners pl,
+  (forall r, In r (a_rules a) -> ty (r_name r) = ty' (r_name r)) -> RI ty a owners pl -> RI ty' a owners pl.
 Proof.
-  intros at_ off n a owners pl [H1 [H2 [H3 [H4 H5]]]]. unfold RI.
+  intros ty ty' a owners pl Ht [H1 [H2 [H3 [H4 H5]]]]. unfold RI.
+  split; [exact H1|]. split; [exact H2|]. split; [exact H3|]. split; [exact H4|].
+  intros r Hr. destruct (H5 r Hr) as [Hp Ha]. split; [exact Hp|]. rewrite <- (Ht r Hr). exact Ha.
+Qed.
+
+(* a block head adds the rule, with the block's type, only when there is no rule of that name yet *)
+Lemma RI_head : forall ty off at' n a owners pl,
+  RI ty a owners pl -> (get_rule (a_rules a) n = None -> ty n = at') ->
+  RI ty (rule_head_eff off at' n a) owners pl.
+Proof.
+  intros ty off at' n a owners pl [H1 [H2 [H3 [H4 H5]]]] Hty. unfold RI.
   rewrite rule_head_prods, rule_head_rules. destruct (get_rule (a_rules a) n) eqn:E.
   - repeat split; try assumption; apply H5; assumption.
   - pose proof (get_rule_none_not_in _ _ E) as Hn.
@@ -578,15 +754,15 @@ Proof.
     + rewrite map_app. cbn [map r_name]. apply ff_nodup_snoc; assumption.
     + intros o Ho. rewrite map_app. apply in_or_app. left. apply H4. exact Ho.
     + intros r Hr. apply in_app_or in Hr. destruct Hr as [Hr|[<-|[]]]; [apply H5; exact Hr|].
-      cbn [r_pidxs r_name r_actiont]. split; [|reflexivity].
+      cbn [r_pidxs r_name r_actiont]. split; [|symmetry; apply Hty; reflexivity].
       symmetry. apply owned_nil. intros Ho. apply Hn. apply H4. exact Ho.
 Qed.
 
-Lemma RI_add_prod : forall at_ a owners pl rn syms prec act sp,
-  RI at_ a owners pl -> has_rule a rn = true ->
-  RI at_ (add_prod_t a rn syms prec act sp) (owners ++ [rn]) (pl ++ [pview (mkProd syms prec act sp)]).
+Lemma RI_add_prod : forall ty a owners pl rn syms prec act sp,
+  RI ty a owners pl -> has_rule a rn = true ->
+  RI ty (add_prod_t a rn syms prec act sp) (owners ++ [rn]) (pl ++ [pview (mkProd syms prec act sp)]).
 Proof.
-  intros at_ a owners pl rn syms prec act sp [H1 [H2 [H3 [H4 H5]]]] Hr.
+  intros ty a owners pl rn syms prec act sp [H1 [H2 [H3 [H4 H5]]]] Hr.
   unfold add_prod_t, add_prod.
   destruct (rules_push_pidx (a_rules a) rn (List.length (a_prods a))) as [rs|] eqn:E.
   - unfold RI. cbn [a_rules a_prods upd_prods upd_rules].
@@ -599,17 +775,17 @@ Proof.
     + intros r' Hr'. rewrite owned_snoc.
       destruct (push_spec _ _ _ _ E H3 r' Hr') as [[Hin He]|[r [Hin [Hrn ->]]]].
       * rewrite He, app_nil_r. apply H5. exact Hin.
-      * cbn [r_pidxs r_name r_actiont]. destruct (H5 r Hin) as [Hp Ha].
-        rewrite Hrn, str_eqb_refl, Hp, Hrn, H2. split; [reflexivity | exact Ha].
+      * cbn [r_pidxs r_name r_actiont]. destruct (H5 r Hin) as [Hp Ha]. rewrite Hrn in Hp, Ha.
+        rewrite Hrn, str_eqb_refl, Hp, H2. split; [reflexivity | exact Ha].
   - exfalso. apply (rules_push_some (a_rules a) rn (List.length (a_prods a))); [|exact E].
     unfold has_rule in Hr. destruct (get_rule (a_rules a) rn); [discriminate | discriminate Hr].
 Qed.
 
-Lemma RI_prod : forall at_ fa pl' rn off p a owners pl,
-  RI at_ a owners pl -> has_rule a rn = true ->
-  RI at_ (prod_eff fa pl' rn off p a) (owners ++ [rn]) (pl ++ [apview p]).
+Lemma RI_prod : forall ty fa pl' rn off p a owners pl,
+  RI ty a owners pl -> has_rule a rn = true ->
+  RI ty (prod_eff fa pl' rn off p a) (owners ++ [rn]) (pl ++ [apview p]).
 Proof.
-  intros at_ fa pl' rn off p a owners pl H Hr. unfold prod_eff.
+  intros ty fa pl' rn off p a owners pl H Hr. unfold prod_eff.
   set (a1 := syms_ins pl' 0 (prod_o0 pl' off p) (ap_syms p) a).
   set (a2 := match ap_prec p with Some t => tokens_insert a1 t _ | None => a1 end).
   destruct (syms_ins_frame pl' (ap_syms p) 0 (prod_o0 pl' off p) a) as [F1 [F2 _]]. fold a1 in F1, F2.
@@ -618,10 +794,10 @@ Proof.
   assert (G2 : a_prods a2 = a_prods a).
   { unfold a2. destruct (ap_prec p); [rewrite tokens_insert_prods|]; exact F2. }
   assert (Hr2 : has_rule a2 rn = true) by (unfold has_rule in *; rewrite G1; exact Hr).
-  pose proof (RI_add_prod at_ a2 owners pl rn (syms_out pl' 0 (prod_o0 pl' off p) (ap_syms p)) (ap_prec p)
+  pose proof (RI_add_prod ty a2 owners pl rn (syms_out pl' 0 (prod_o0 pl' off p) (ap_syms p)) (ap_prec p)
                 (match ap_action p with Some t => Some (t, act_span fa pl' (prod_o2 pl' off p) t) | None => None end)
                 (off, match prod_pend pl' off p with Some e => e | None => prod_o3 pl' off p end)
-                (RI_same at_ a a2 owners pl G1 G2 H) Hr2) as R.
+                (RI_same ty a a2 owners pl G1 G2 H) Hr2) as R.
   replace (apview p) with
     (pview (mkProd (syms_out pl' 0 (prod_o0 pl' off p) (ap_syms p)) (ap_prec p)
                    (match ap_action p with Some t => Some (t, act_span fa pl' (prod_o2 pl' off p) t) | None => None end)
@@ -631,11 +807,11 @@ Proof.
     destruct (ap_action p); reflexivity.
 Qed.
 
-Lemma RI_prods : forall at_ fa rl rn ps pi off a owners pl,
-  RI at_ a owners pl -> has_rule a rn = true ->
-  RI at_ (prods_eff fa rl rn pi off ps a) (owners ++ map (fun _ => rn) ps) (pl ++ map apview ps).
+Lemma RI_prods : forall ty fa rl rn ps pi off a owners pl,
+  RI ty a owners pl -> has_rule a rn = true ->
+  RI ty (prods_eff fa rl rn pi off ps a) (owners ++ map (fun _ => rn) ps) (pl ++ map apview ps).
 Proof.
-  intros at_ fa rl rn ps. induction ps as [|p ps IH]; intros pi off a owners pl H Hr; cbn [prods_eff map].
+  intros ty fa rl rn ps. induction ps as [|p ps IH]; intros pi off a owners pl H Hr; cbn [prods_eff map].
   - rewrite !app_nil_r. exact H.
   - replace (owners ++ rn :: map (fun _ => rn) ps) with ((owners ++ [rn]) ++ map (fun _ : aprod => rn) ps)
       by (rewrite <- app_assoc; reflexivity).
@@ -646,25 +822,42 @@ Proof.
     + rewrite prod_eff_has_rule. exact Hr.
 Qed.
 
-Lemma RI_rule : forall at_ fa rl off r a owners pl,
-  RI at_ a owners pl ->
-  RI at_ (rule_eff fa rl off at_ r a) (owners ++ map (fun _ => ar_name r) (ar_prods r))
+Lemma RI_rule : forall ty at_ fa rl off r a owners pl,
+  RI ty a owners pl ->
+  (get_rule (a_rules a) (ar_name r) = None -> ty (ar_name r) = rule_at_ at_ r) ->
+  RI ty (rule_eff fa rl off at_ r a) (owners ++ map (fun _ => ar_name r) (ar_prods r))
      (pl ++ map apview (ar_prods r)).
 Proof.
-  intros at_ fa rl off r a owners pl H. unfold rule_eff. apply RI_prods.
-  - apply RI_head. exact H.
+  intros ty at_ fa rl off r a owners pl H Hty. unfold rule_eff. apply RI_prods.
+  - apply RI_head; assumption.
   - apply rule_head_has_rule.
 Qed.
 
-Lemma RI_rules : forall at_ fa l rs r off a owners pl,
-  RI at_ a owners pl ->
-  RI at_ (rules_eff fa l r off at_ rs a)
+Lemma rule_eff_names : forall fa rl off at_ r a,
+  map r_name (a_rules (rule_eff fa rl off at_ r a)) = addn (map r_name (a_rules a)) (ar_name r).
+Proof. intros fa rl off at_ r a. unfold rule_eff. rewrite prods_eff_names, rule_head_names. reflexivity. Qed.
+
+(* [done] = the blocks before: the rule table has exactly their names, each rule with the type
+   of its first block *)
+Lemma RI_rules : forall at_ fa l rs r off a owners pl done,
+  RI (tyf at_ done) a owners pl ->
+  (forall n, In n (map r_name (a_rules a)) <-> In n (map ar_name done)) ->
+  RI (tyf at_ (done ++ rs)) (rules_eff fa l r off at_ rs a)
      (owners ++ flat_map (fun x => map (fun _ => ar_name x) (ar_prods x)) rs)
      (pl ++ map apview (flat_map ar_prods rs)).
 Proof.
-  intros at_ fa l rs. induction rs as [|x rs IH]; intros r off a owners pl H; cbn [rules_eff flat_map map].
+  intros at_ fa l rs. induction rs as [|x rs IH]; intros r off a owners pl done H Hn; cbn [rules_eff flat_map map].
   - rewrite !app_nil_r. exact H.
-  - rewrite map_app, !app_assoc. apply IH. apply RI_rule. exact H.
+  - replace (done ++ x :: rs) with ((done ++ [x]) ++ rs) by (rewrite <- app_assoc; reflexivity).
+    rewrite map_app, !app_assoc. apply IH.
+    + apply RI_rule.
+      * apply (RI_ty_ext (tyf at_ done)); [|exact H]. intros r0 Hr0. symmetry. apply tyf_snoc_in.
+        apply Hn. apply in_map. exact Hr0.
+      * intros E. apply tyf_snoc_new. intros Hi. apply (get_rule_none_not_in _ _ E). apply Hn. exact Hi.
+    + intros n. rewrite rule_eff_names, in_addn, map_app, in_app_iff, Hn. cbn [map In].
+      split; (intros [Hi|Hi]; [left; exact Hi | right]).
+      * left. symmetry. exact Hi.
+      * destruct Hi as [Hi|[]]. symmetry. exact Hi.
 Qed.
 
 (* ======================================================================== *)
@@ -672,34 +865,60 @@ Qed.
 (* ======================================================================== *)
 Lemma ast_of_faithful : ast_of_faithful_stmt.
 Proof.
-  intros fa l ag Hwf A.
-  destruct Hwf as [Hs [He [Hr _]]]. unfold count_decl in Hs, He, Hr.
+  intros k fa l ag Hwf A.
+  destruct Hwf as [Hs [He [Hr [_ [_ [_ [_ [_ [_ [_ [_ [_ [_ [_ [Hat [Hpp [Hpg _]]]]]]]]]]]]]]]]].
+  unfold count_decl in Hs, He, Hr, Hat, Hpp, Hpg.
   set (D := decls_eff l 0 (decls_off l) 0 (ag_decls ag) ast_new).
-  assert (EA : A = rules_eff fa l 0 (rules_off l ag) None (ag_rules ag) D) by reflexivity.
+  (* the %actiontype in force *)
+  assert (Eat : actiont_of (gat_of l ag) = ag_actiontype ag).
+  { unfold gat_of. rewrite (decls_gat_once l (ag_decls ag) 0 (decls_off l) None).
+    - unfold ag_actiontype. fold sel_at. cbn [actiont_of].
+      destruct (hd_error (flat_map sel_at (ag_decls ag))); reflexivity.
+    - rewrite (length_flat_map_sel str sel_at
+                 (fun d => match d with DActiontype _ => true | _ => false end)); [exact Hat|].
+      intros x. destruct x; reflexivity. }
+  set (at_ := ag_actiontype ag) in *.
+  set (A0 := rules_eff fa l 0 (rules_off l ag) at_ (ag_rules ag) D).
+  assert (EA0 : A0 = rules_eff fa l 0 (rules_off l ag) at_ (ag_rules ag) D) by reflexivity.
+  (* the programs section *)
+  assert (EA : A = programs_eff ag A0) by (unfold A, ast_of; rewrite Eat; reflexivity).
+  assert (PJ : (a_prods A = a_prods A0 /\ a_rules A = a_rules A0 /\ a_start A = a_start A0 /\
+                a_precs A = a_precs A0 /\ a_epp A = a_epp A0 /\ a_avoid_insert A = a_avoid_insert A0 /\
+                a_expect A = a_expect A0 /\ a_expectrr A = a_expectrr A0 /\ a_tokens A = a_tokens A0 /\
+                a_spans A = a_spans A0 /\ a_token_directives A = a_token_directives A0 /\
+                a_implicit_tokens A = a_implicit_tokens A0 /\ a_parse_param A = a_parse_param A0 /\
+                a_parse_generics A = a_parse_generics A0 /\ a_expect_unused A = a_expect_unused A0) /\
+               a_programs A = match ag_programs ag with Some p => Some p | None => a_programs A0 end).
+  { rewrite EA. unfold programs_eff. destruct (ag_programs ag); repeat split; reflexivity. }
+  clearbody A.
+  destruct PJ as [[P1 [P2 [P3 [P4 [P5 [P6 [P7 [P8 [P9 [P10 [P11 [P12 [P13 [P14 P15]]]]]]]]]]]]]] P16].
+  unfold is_declared.
+  rewrite P1, P2, P3, P4, P5, P6, P7, P8, P9, P10, P11, P12, P13, P14, P15, P16.
   (* what the declarations leave alone *)
   pose proof (decls_eff_rpart l (ag_decls ag) 0 (decls_off l) 0 ast_new) as HD. fold D in HD.
-  unfold rpart in HD. cbn [ast_new a_rules a_prods a_implicit_tokens a_parse_param a_parse_generics
-                            a_programs a_expect_unused] in HD.
-  injection HD as HD1 HD2 HD3 HD4 HD5 HD6 HD7.
+  unfold rpart in HD. cbn [ast_new a_rules a_prods a_programs] in HD.
+  injection HD as HD1 HD2 HD3.
   (* what the rules leave alone *)
-  pose proof (rules_eff_dpart fa l None (ag_rules ag) 0 (rules_off l ag) D) as HR. rewrite <- EA in HR.
+  pose proof (rules_eff_dpart fa l at_ (ag_rules ag) 0 (rules_off l ag) D) as HR. rewrite <- EA0 in HR.
   unfold dpart in HR. injection HR as HR1 HR2 HR3 HR4 HR5 HR6 HR7 HR8 HR9 HR10.
   (* the rules section *)
-  assert (RI0 : RI None D [] []).
+  assert (RI0 : RI (tyf at_ []) D [] []).
   { unfold RI. rewrite HD1, HD2. cbn [map List.length]. repeat split; try reflexivity.
     - constructor.
     - intros o [].
     - destruct H.
     - destruct H. }
-  pose proof (RI_rules None fa l (ag_rules ag) 0 (rules_off l ag) D [] [] RI0) as R.
-  rewrite <- EA in R. cbn [app] in R. destruct R as [R1 [R2 [R3 [R4 R5]]]].
+  assert (Hn0 : forall n, In n (map r_name (a_rules D)) <-> In n (map ar_name (@nil arule))).
+  { intros n. rewrite HD1. cbn [map]. split; intros H; exact H. }
+  pose proof (RI_rules at_ fa l (ag_rules ag) 0 (rules_off l ag) D [] [] [] RI0 Hn0) as R.
+  rewrite <- EA0 in R. cbn [app] in R. destruct R as [R1 [R2 [R3 [R4 R5]]]].
   split; [exact R1|].
   split.
-  { rewrite EA, rules_eff_names, HD1. cbn [map]. apply fold_addn_nil. }
+  { rewrite EA0, rules_eff_names, HD1. cbn [map]. apply fold_addn_nil. }
   split.
   { intros r Hin. destruct (R5 r Hin) as [Hp Ha]. split; [exact Hp | exact Ha]. }
   split.
-  { rewrite EA, rules_eff_start. unfold D.
+  { rewrite EA0, rules_eff_start. unfold D.
     rewrite (decls_eff_once str (fun a => option_map fst (a_start a)) sel_start).
     - cbn [ast_new a_start option_map]. unfold ag_start. fold sel_start.
       destruct (hd_error (flat_map sel_start (ag_decls ag))); reflexivity.
@@ -735,10 +954,36 @@ Proof.
                  (fun d => match d with DExpectRR _ => true | _ => false end)); [exact Hr|].
       intros x. destruct x; reflexivity. }
   split.
-  { pose proof (rules_eff_inv fa (declared_b ag) l None (ag_rules ag) 0 (rules_off l ag) D
+  { pose proof (rules_eff_inv fa (declared_b ag) l at_ (ag_rules ag) 0 (rules_off l ag) D
                   (decls_tok_inv l ag)) as [_ Hd].
-    rewrite <- EA in Hd. exact Hd. }
+    rewrite <- EA0 in Hd. exact Hd. }
   split.
-  { rewrite EA. apply span_len_rules. unfold D. apply span_len_decls. reflexivity. }
-  rewrite HR6, HR7, HR8, HR9, HR10, HD3, HD4, HD5, HD6, HD7. repeat split; reflexivity.
+  { rewrite EA0. apply span_len_rules. unfold D. apply span_len_decls. reflexivity. }
+  split.
+  { rewrite HR6. unfold D. rewrite decls_eff_implicit. reflexivity. }
+  split.
+  { rewrite HR7. unfold D.
+    rewrite (decls_eff_once (str * str) a_parse_param sel_pp).
+    - cbn [ast_new a_parse_param]. unfold ag_parse_param. fold sel_pp.
+      destruct (hd_error (flat_map sel_pp (ag_decls ag))); reflexivity.
+    - intros x. destruct x; cbn; lia.
+    - exact decl_eff_pp.
+    - rewrite (length_flat_map_sel (str * str) sel_pp
+                 (fun d => match d with DParseParam _ _ => true | _ => false end)); [exact Hpp|].
+      intros x. destruct x; reflexivity. }
+  split.
+  { rewrite HR8. unfold D.
+    rewrite (decls_eff_once str a_parse_generics sel_pg).
+    - cbn [ast_new a_parse_generics]. unfold ag_parse_generics. fold sel_pg.
+      destruct (hd_error (flat_map sel_pg (ag_decls ag))); reflexivity.
+    - intros x. destruct x; cbn; lia.
+    - exact decl_eff_pg.
+    - rewrite (length_flat_map_sel str sel_pg
+                 (fun d => match d with DParseGenerics _ => true | _ => false end)); [exact Hpg|].
+      intros x. destruct x; reflexivity. }
+  split.
+  { rewrite HR9, HD3. destruct (ag_programs ag); reflexivity. }
+  rewrite HR10. unfold D.
+  destruct (decls_eff_facts (ag_decls ag) l 0 (decls_off l) 0 ast_new) as [_ [_ [_ [H _]]]].
+  rewrite H. reflexivity.
 Qed.
